@@ -21,6 +21,6 @@ def run(tier):
     report_known(chk, rep, "C15")
     if rep["distinct_cases"] < 120:
         raise ToolError("vacuity: %d (type, function) cases" % rep["distinct_cases"])
-    return chk.finish(rule="one case = (type incl. plain f32/f64, nested, dynamic; function); 75 arguments in [-50, 50]: 0, denormals, both sides of "
-                           "+-eps, 1e-8..1e-1, zeros of the functions; oracle = TLC series (with the remainder bound of CoefDecay) up to 0.3, i.e. over the whole small-argument branch and both sides of its switch, and TLC closed-form tower above; "
+    return chk.finish(rule="one case = (type incl. plain f32/f64, nested, dynamic; function); 77 arguments in [-50, 50]: 0, denormals, both sides of "
+                           "+-eps, 1e-8..1e-1, zeros of the functions; oracle = TLC series (with the remainder bound of CoefDecay) up to 0.3 -- strict below 0.25, with the closed form's own conditioning added between 0.25 and 0.3 so that either algorithm is accepted around the switch -- and TLC closed-form tower above; "
                            "two thresholds: strict K*u*(|true terms|) / cancellation-explained (known finding sph-small-arg only)")
